@@ -66,6 +66,11 @@ pub struct Cfg {
     pub objects: Vec<Obj>,
     /// `Drop(SampleMut)` is performed as `SampleMut::send()` (which consumes the sample)
     pub send_instead_of_drop: bool,
+    /// the service admits exactly the nodes of the graph (max_nodes = 1 or 2); before the objects are
+    /// dropped, a further node tries to open it, is refused with ExceedsMaxNumberOfNodes and is
+    /// dropped again: the refused open must not leave anything behind either
+    #[serde(default)]
+    pub refused_open: bool,
 }
 
 #[derive(Clone, Debug, Serialize, Deserialize, PartialEq, Eq)]
@@ -172,12 +177,23 @@ pub fn configs(tier: Tier) -> Vec<(Cfg, Plan)> {
                     (false, 7) => 4,
                     _ => 2,
                 };
-                let cfg = Cfg { pattern, variant, two_nodes, objects, send_instead_of_drop: send };
+                let cfg = Cfg { pattern, variant, two_nodes, objects, send_instead_of_drop: send, refused_open: false };
                 // reduced graphs can coincide
                 if v.iter().any(|(c, _): &(Cfg, Plan)| format!("{c:?}") == format!("{cfg:?}")) {
                     continue;
                 }
-                v.push((cfg, Plan { tree_depth: n, finish_prefixes: false, frontier: None, split }));
+                v.push((cfg.clone(), Plan { tree_depth: n, finish_prefixes: false, frontier: None, split }));
+                // the first graph of every pattern once more with a refused open of a further node
+                // (quick: ipc and local only)
+                if gi == 0 && (tier == Tier::Thorough || matches!(variant, Variant::Ipc | Variant::Local)) {
+                    let mut objects = cfg.objects.clone();
+                    while objects.len() > 4 {
+                        let victim = [Obj::Svc0, Obj::Svc1, Obj::Node1].into_iter().find(|o| objects.contains(o)).or_else(|| objects.iter().rev().find(|o| **o != Obj::Node0).cloned()).unwrap();
+                        objects.retain(|o| *o != victim);
+                    }
+                    let n = objects.len();
+                    v.push((Cfg { objects, refused_open: true, ..cfg }, Plan { tree_depth: n, finish_prefixes: false, frontier: None, split: 2 }));
+                }
             }
         }
     }
@@ -264,7 +280,7 @@ where
         NodeName::new(if i == 0 { "c17-node-0" } else { "c17-node-1" }).unwrap()
     }
 
-    fn create_service(node: &Node<S>, name: &ServiceName, pattern: Pattern, open: bool) -> Result<Svc<S>, Fail> {
+    fn create_service(node: &Node<S>, name: &ServiceName, pattern: Pattern, open: bool, max_nodes: usize) -> Result<Svc<S>, Fail> {
         let b = node.service_builder(name);
         Ok(match pattern {
             Pattern::PubSub => {
@@ -273,14 +289,14 @@ where
                     setup(b.open(), "open publish_subscribe")?
                 } else {
                     setup(
-                        b.max_publishers(2).max_subscribers(3).max_nodes(3).subscriber_max_buffer_size(4).subscriber_max_borrowed_samples(4).history_size(0).create(),
+                        b.max_publishers(2).max_subscribers(3).max_nodes(max_nodes).subscriber_max_buffer_size(4).subscriber_max_borrowed_samples(4).history_size(0).create(),
                         "create publish_subscribe",
                     )?
                 })
             }
             Pattern::Event => {
                 let b = b.event();
-                Svc::Ev(if open { setup(b.open(), "open event")? } else { setup(b.max_listeners(3).max_notifiers(2).max_nodes(3).event_id_max_value(7).create(), "create event")? })
+                Svc::Ev(if open { setup(b.open(), "open event")? } else { setup(b.max_listeners(3).max_notifiers(2).max_nodes(max_nodes).event_id_max_value(7).create(), "create event")? })
             }
             Pattern::ReqRes => {
                 let b = b.request_response::<u64, u64>();
@@ -288,7 +304,7 @@ where
                     setup(b.open(), "open request_response")?
                 } else {
                     setup(
-                        b.max_clients(2).max_servers(2).max_nodes(3).max_active_requests_per_client(4).max_response_buffer_size(4).max_borrowed_responses_per_pending_response(4).create(),
+                        b.max_clients(2).max_servers(2).max_nodes(max_nodes).max_active_requests_per_client(4).max_response_buffer_size(4).max_borrowed_responses_per_pending_response(4).create(),
                         "create request_response",
                     )?
                 })
@@ -296,7 +312,7 @@ where
             Pattern::Blackboard => Svc::Bb(if open {
                 setup(b.blackboard_opener::<u64>().open(), "open blackboard")?
             } else {
-                setup(b.blackboard_creator::<u64>().add::<u64>(0, BB0).add::<u64>(1, BB1).max_readers(3).max_nodes(3).create(), "create blackboard")?
+                setup(b.blackboard_creator::<u64>().add::<u64>(0, BB0).add::<u64>(1, BB1).max_readers(3).max_nodes(max_nodes).create(), "create blackboard")?
             }),
         })
     }
@@ -344,17 +360,33 @@ where
         let pattern = self.cfg.pattern;
         let n0 = setup(NodeBuilder::new().name(&Self::node_name(0)).config(&self.domain.config).create::<S>(), "node 0")?;
         self.node_ids[0] = Some(format!("{:?}", n0.id()));
-        self.svc[0] = Some(Self::create_service(&n0, &self.service_name, pattern, false)?);
+        let max_nodes = if self.cfg.refused_open { 1 + self.cfg.two_nodes as usize } else { 3 };
+        self.svc[0] = Some(Self::create_service(&n0, &self.service_name, pattern, false, max_nodes)?);
         self.node[0] = Some(n0);
         self.alive.insert(Node0);
         self.alive.insert(Svc0);
         if self.cfg.two_nodes {
             let n1 = setup(NodeBuilder::new().name(&Self::node_name(1)).config(&self.domain.config).create::<S>(), "node 1")?;
             self.node_ids[1] = Some(format!("{:?}", n1.id()));
-            self.svc[1] = Some(Self::create_service(&n1, &self.service_name, pattern, true)?);
+            self.svc[1] = Some(Self::create_service(&n1, &self.service_name, pattern, true, max_nodes)?);
             self.node[1] = Some(n1);
             self.alive.insert(Node1);
             self.alive.insert(Svc1);
+        }
+        if self.cfg.refused_open {
+            // one node too many: refused, and the refused node goes away again
+            let extra = setup(NodeBuilder::new().name(&Self::node_name(1)).config(&self.domain.config).create::<S>(), "further node")?;
+            let refused: Result<(), String> = {
+                let b = extra.service_builder(&self.service_name);
+                match pattern {
+                    Pattern::PubSub => b.publish_subscribe::<u64>().open().map(|_| ()).map_err(|e| format!("{e:?}")),
+                    Pattern::Event => b.event().open().map(|_| ()).map_err(|e| format!("{e:?}")),
+                    Pattern::ReqRes => b.request_response::<u64, u64>().open().map(|_| ()).map_err(|e| format!("{e:?}")),
+                    Pattern::Blackboard => b.blackboard_opener::<u64>().open().map(|_| ()).map_err(|e| format!("{e:?}")),
+                }
+            };
+            ensure!(refused == Err("ExceedsMaxNumberOfNodes".to_string()), "setup", "open by one node more than max_nodes", "expected Err(ExceedsMaxNumberOfNodes), got {:?}", refused);
+            drop(extra);
         }
         let rx = if self.cfg.two_nodes { 1 } else { 0 };
         match pattern {
